@@ -13,14 +13,13 @@ Proof. intros a b. unfold str_eqb. destruct (list_eq_dec ascii_dec a b); split; 
 
 (* which arm the loop selected, whatever happened to its binding *)
 Definition arm_index (a : armres) : option nat :=
-  match a with ArmOk i _ | ArmRange i | ArmUnbound i => Some i | NoArm => None end.
+  match a with ArmOk i _ | ArmUnbound i => Some i | NoArm => None end.
 
 Lemma bind_payload_index : forall i sv b, arm_index (bind_payload i sv b) = Some i.
 Proof.
   intros i sv b. unfold bind_payload. destruct b; try reflexivity.
   destruct (s_has sv); [|reflexivity].
-  destruct (is_empty (s_str sv)); [|reflexivity].
-  destruct (in_int32 (s_int sv)); reflexivity.
+  destruct (is_empty (s_str sv)); reflexivity.
 Qed.
 
 (* the arm at list position j of a search that started counting at k has index k + j *)
@@ -110,9 +109,7 @@ Proof.
         inversion Hidx. assert (j = 0%nat) by lia. subst j. simpl in Hn. inversion Hn; subst.
         unfold bind_payload in H. unfold decode_payload.
         destruct (s_has sv); [|discriminate].
-        destruct (is_empty (s_str sv)).
-        -- destruct (in_int32 (s_int sv)); inversion H; subst. split; reflexivity.
-        -- inversion H; subst. split; reflexivity.
+        destruct (is_empty (s_str sv)); inversion H; subst; split; reflexivity.
       * destruct j.
         -- pose proof (proj1 (match_from_first rest sv (S k) i)) as Hf.
            rewrite H in Hf. destruct (Hf eq_refl) as (j' & Hj' & _). lia.
@@ -142,7 +139,7 @@ Proof. reflexivity. Qed.
 
 (* ---------------------------------------------------------------- Mech = Spec on representable payloads *)
 Definition good_for_match (p : payload) : bool :=
-  match p with PNone => true | PInt z => in_int32 z | PStr s => negb (is_empty s) end.
+  match p with PNone => true | PInt _ => true | PStr s => negb (is_empty s) end.
 
 Lemma bind_refines : forall i c b, good_for_match (c_payload c) = true ->
   bind_payload i (encode c) b = spec_bind i c b.
@@ -150,7 +147,7 @@ Proof.
   intros i [v p] b Hg. destruct b; try reflexivity.
   destruct p as [|z|s]; simpl in *.
   - reflexivity.
-  - unfold bind_payload, encode; simpl. rewrite Hg. reflexivity.
+  - reflexivity.
   - destruct s; [discriminate|reflexivity].
 Qed.
 
@@ -171,8 +168,7 @@ Lemma match_refines_l : forall c arms, good_for_match (c_payload c) = true ->
   mech_match (encode c) arms = spec_match c arms.
 Proof. intros. apply match_from_refines. assumption. Qed.
 
-(* a payload outside int cannot be bound by name: the run fails with a range error *)
-Lemma long_payload_refuted_l :
-  exists c arms, mech_match (encode c) arms = ArmRange 0 /\ spec_match c arms = ArmOk 0 (VInt 2147483648) /\
-                 c = mkC (s2l "L") (PInt 2147483648) /\ arms = [PatVar (s2l "L") BName].
-Proof. exists (mkC (s2l "L") (PInt 2147483648)), [PatVar (s2l "L") BName]. repeat split. Qed.
+(* every integer payload, also outside int, is bound unchanged (TYPE_LONG binding, /repo b144e56) *)
+Lemma long_payload_bound_l : forall v z arms,
+  mech_match (encode (mkC v (PInt z))) (PatVar v BName :: arms) = ArmOk 0 (VInt z).
+Proof. intros v z arms. unfold mech_match. simpl. rewrite str_eqb_refl. reflexivity. Qed.
